@@ -19,7 +19,7 @@ import numpy as np
 from . import common as C
 from . import topo as T
 from . import describe as D
-from mininec.mininec import Excitation, Angle
+from mininec.mininec import Excitation, Angle, Mininec
 
 PID = 'C06'
 LAM = 20.0
@@ -53,10 +53,26 @@ def in_domain(m):
     return True
 
 
+_ORIG_PSI = Mininec.psi
+
+
+def _psi_on_axis_only(self, vec2, vecv, k, scale, pidx, exact=False, fvs=0):
+    """diagnosis only: the exact-kernel branch (which integrates over half of the source piece and presumes the
+       observation point on its axis) only where the observation point really lies on that axis"""
+    cr = np.linalg.norm(np.cross(vec2, vecv), axis=-1)
+    # (absolute scale: the observation point may coincide with an end of the piece up to rounding)
+    big = np.maximum(np.linalg.norm(vec2, axis=-1), np.linalg.norm(vecv, axis=-1))
+    on_axis = cr <= 1e-9 * big * big + 1e-300
+    return _ORIG_PSI(self, vec2, vecv, k, scale, pidx, exact=np.logical_and(exact, on_axis), fvs=fvs)
+
+
 def solve(desc, rec, feed, force_exact=False):
     maps, clashes = D.joint_maps(desc, rec)
     m = desc.build(LAM, F)
-    if force_exact:
+    if force_exact in ('on-axis-only', 'both'):
+        import types
+        m.psi = types.MethodType(_psi_on_axis_only, m)
+    if force_exact and force_exact != 'on-axis-only':
         # diagnosis only: the exact kernel between ALL pulses, whatever wires they belong to
         m.pulses._matrix_geo_unconnected = np.zeros((len(m.pulses), len(m.pulses)), dtype=bool)
     if len(m.pulses) != len(rec['pulses']):
@@ -94,6 +110,8 @@ def check_structure(args):
         feed = (w0, 1)
         ref = None
         ref_exact = None
+        ref_axis = None
+        ref_both = None
         for lb in labels:
             d = descs[lb]
             r = solve(d, recs_by_label[lb], feed)
@@ -143,6 +161,33 @@ def check_structure(args):
                          np.abs(r2['h'] - ref_exact['h']).max() / np.abs(ref_exact['h']).max())
                 if d2 <= tol:
                     cause = 'exact-kernel-heuristic-depends-on-description'
+                else:
+                    # ... or by the inherited criterion for the exact-kernel branch, (d0 + d3) / segment <= 1.1, being
+                    # met by an observation point that is NOT on the axis of the source piece (a junction of segments of
+                    # very different length at an acute angle)?  Both descriptions again with that branch restricted to
+                    # observation points on the axis.
+                    if ref_axis is None:
+                        ref_axis = solve(descs[ref_label], recs_by_label[ref_label], feed, force_exact='on-axis-only')
+                    r3 = solve(d, recs_by_label[lb], feed, force_exact='on-axis-only')
+                    sc3 = max(abs(x) for x in ref_axis['phys'].values())
+                    d3 = max(abs(r3['z'] - ref_axis['z']) / abs(ref_axis['z']),
+                             max(abs(r3['phys'][k] - ref_axis['phys'][k]) for k in ref_axis['phys'] if k in r3['phys']) / sc3,
+                             np.abs(r3['e'] - ref_axis['e']).max() / np.abs(ref_axis['e']).max(),
+                             np.abs(r3['h'] - ref_axis['h']).max() / np.abs(ref_axis['h']).max())
+                    if d3 <= tol:
+                        cause = 'exact-kernel-criterion-met-off-axis'
+                    else:
+                        # both at once (three wires on a point AND segments of very different length)
+                        if ref_both is None:
+                            ref_both = solve(descs[ref_label], recs_by_label[ref_label], feed, force_exact='both')
+                        r4 = solve(d, recs_by_label[lb], feed, force_exact='both')
+                        sc4 = max(abs(x) for x in ref_both['phys'].values())
+                        d4 = max(abs(r4['z'] - ref_both['z']) / abs(ref_both['z']),
+                                 max(abs(r4['phys'][k] - ref_both['phys'][k]) for k in ref_both['phys'] if k in r4['phys']) / sc4,
+                                 np.abs(r4['e'] - ref_both['e']).max() / np.abs(ref_both['e']).max(),
+                                 np.abs(r4['h'] - ref_both['h']).max() / np.abs(ref_both['h']).max())
+                        if d4 <= tol:
+                            cause = 'exact-kernel-criterion-met-off-axis'
             for nm, dv, tl in devs:
                 if dv > tl:
                     out['mism'].append(dict(what=nm, description=lb, reference=ref_label, dev=float(dv),
